@@ -679,7 +679,10 @@ class _ActionSubCommands(_SubParsersAction):
         # parse arguments
         if subcommand in self._name_parser_map:
             subparser = self._name_parser_map[subcommand]
-            subnamespace = namespace.get(subcommand).clone() if subcommand in namespace else None
+            subnamespace = namespace.get(subcommand) if subcommand in namespace else None
+            if subnamespace is not None and not isinstance(subnamespace, Namespace):
+                raise TypeError(f'Subcommand "{subcommand}" expects a nested configuration. Got value: {subnamespace!r}')
+            subnamespace = subnamespace.clone() if subnamespace is not None else None
             kwargs = dict(_skip_validation=True, **parse_kwargs.get())
             namespace[subcommand] = subparser.parse_args(arg_strings, namespace=subnamespace, **kwargs)
 
@@ -803,7 +806,12 @@ class _ActionSubCommands(_SubParsersAction):
 
             # Update all subcommand settings
             if subnamespace is not None:
-                cfg[key] = subparser.merge_config(cfg.get(key, Namespace()), subnamespace)
+                subcfg = cfg.get(key)
+                if subcfg is None:
+                    subcfg = Namespace()
+                elif not isinstance(subcfg, Namespace):
+                    raise TypeError(f'Subcommand "{key}" expects a nested configuration. Got value: {subcfg!r}')
+                cfg[key] = subparser.merge_config(subcfg, subnamespace)
 
             # Handle inner subcommands
             if subparser._subparsers is not None:
